@@ -65,8 +65,8 @@ pub enum Outcome {
     /// Ok with a short class string and (for insertions) the returned key
     Ok { class: String, key: Option<VertexKey>, detail: String },
     /// insert_with_statistics returned Ok((Skipped{error}, _))
-    Skipped { class: String },
-    Err { class: String },
+    Skipped { class: String, dbg: String },
+    Err { class: String, dbg: String },
     Panic { msg: String },
 }
 
@@ -74,14 +74,18 @@ impl Outcome {
     pub fn class(&self) -> String {
         match self {
             Outcome::Ok { class, .. } => format!("Ok({class})"),
-            Outcome::Skipped { class } => format!("Skipped({class})"),
-            Outcome::Err { class } => format!("Err({class})"),
+            Outcome::Skipped { class, .. } => format!("Skipped({class})"),
+            Outcome::Err { class, .. } => format!("Err({class})"),
             Outcome::Panic { .. } => "panic".to_string(),
         }
     }
     pub fn is_failure(&self) -> bool {
         matches!(self, Outcome::Skipped { .. } | Outcome::Err { .. })
     }
+}
+
+fn dbg_of<E: std::fmt::Debug>(e: &E) -> String {
+    format!("{e:?}").chars().take(300).collect()
 }
 
 pub fn nth_vertex<K: Kernel<D, Scalar = f64>, const D: usize>(dt: &DtI<K, D>, i: usize) -> Option<VertexKey> {
@@ -110,7 +114,7 @@ pub fn foreign_cell_key() -> CellKey {
 fn ins_outcome(r: Result<VertexKey, delaunay::core::algorithms::incremental_insertion::InsertionError>) -> Outcome {
     match r {
         Ok(k) => Outcome::Ok { class: "Inserted".into(), key: Some(k), detail: String::new() },
-        Err(e) => Outcome::Err { class: variant_name(&e) },
+        Err(e) => Outcome::Err { class: variant_name(&e), dbg: dbg_of(&e) },
     }
 }
 
@@ -133,7 +137,7 @@ fn arr<const D: usize>(c: &[f64]) -> [f64; D] {
 fn flip_outcome<const D: usize>(r: Result<delaunay::triangulation::flips::FlipInfo<D>, delaunay::triangulation::flips::FlipError>) -> Outcome {
     match r {
         Ok(info) => Outcome::Ok { class: format!("Flip{:?}{:?}", info.kind, info.direction), key: None, detail: format!("removed={} new={}", info.removed_cells.len(), info.new_cells.len()) },
-        Err(e) => Outcome::Err { class: format!("Flip::{}", variant_name(&e)) },
+        Err(e) => Outcome::Err { class: format!("Flip::{}", variant_name(&e)), dbg: dbg_of(&e) },
     }
 }
 
@@ -145,57 +149,57 @@ where
         Op::Insert { p, uid, stats } => insert_at(dt, alphabet[*p], *uid, *stats, *p as i32),
         Op::InsertAt { c, uid, stats } => insert_at(dt, arr::<D>(c), *uid, *stats, -1),
         Op::InsertDupUuid { p, of } => {
-            let Some(uuid) = dt.vertices().nth(*of).map(|(_, v)| v.uuid()) else { return Outcome::Err { class: "NoSuchVertex".into() } };
+            let Some(uuid) = dt.vertices().nth(*of).map(|(_, v)| v.uuid()) else { return Outcome::Err { class: "NoSuchVertex".into(), dbg: String::new() } };
             let v = delaunay::core::vertex::Vertex::new_with_uuid(delaunay::geometry::point::Point::new(alphabet[*p]), uuid, Some(*p as i32));
             ins_outcome(dt.insert(v))
         }
         Op::Remove { v } => {
-            let Some(vx) = dt.vertices().nth(*v).map(|(_, x)| *x) else { return Outcome::Err { class: "NoSuchVertex".into() } };
+            let Some(vx) = dt.vertices().nth(*v).map(|(_, x)| *x) else { return Outcome::Err { class: "NoSuchVertex".into(), dbg: String::new() } };
             match dt.remove_vertex(&vx) {
                 Ok(n) => Outcome::Ok { class: "Removed".into(), key: None, detail: format!("{n}") },
-                Err(e) => Outcome::Err { class: variant_name(&e) },
+                Err(e) => Outcome::Err { class: variant_name(&e), dbg: dbg_of(&e) },
             }
         }
         Op::RemoveUnknown => {
             let vx = mk_vertex::<i32, D>([0.123; D], 0xdead_beef, Some(-7));
             match dt.remove_vertex(&vx) {
                 Ok(n) => Outcome::Ok { class: "Removed".into(), key: None, detail: format!("{n}") },
-                Err(e) => Outcome::Err { class: variant_name(&e) },
+                Err(e) => Outcome::Err { class: variant_name(&e), dbg: dbg_of(&e) },
             }
         }
         Op::K1Insert { cell, c, uid } => {
-            let Some(ck) = nth_cell(dt, *cell) else { return Outcome::Err { class: "NoSuchCell".into() } };
+            let Some(ck) = nth_cell(dt, *cell) else { return Outcome::Err { class: "NoSuchCell".into(), dbg: String::new() } };
             flip_outcome(dt.flip_k1_insert(ck, mk_vertex::<i32, D>(arr::<D>(c), 0x1_0000 + *uid as u128, Some(-2))))
         }
         Op::K1Remove { v } => {
-            let Some(vk) = nth_vertex(dt, *v) else { return Outcome::Err { class: "NoSuchVertex".into() } };
+            let Some(vk) = nth_vertex(dt, *v) else { return Outcome::Err { class: "NoSuchVertex".into(), dbg: String::new() } };
             flip_outcome(dt.flip_k1_remove(vk))
         }
         Op::K1RemoveStale => flip_outcome(dt.flip_k1_remove(foreign_vertex_key())),
         Op::K2 { cell, facet } => {
-            let Some(ck) = nth_cell(dt, *cell) else { return Outcome::Err { class: "NoSuchCell".into() } };
+            let Some(ck) = nth_cell(dt, *cell) else { return Outcome::Err { class: "NoSuchCell".into(), dbg: String::new() } };
             flip_outcome(dt.flip_k2(FacetHandle::new(ck, *facet)))
         }
         Op::K2Stale => flip_outcome(dt.flip_k2(FacetHandle::new(foreign_cell_key(), 0))),
         Op::K3 { cell, a, b } => {
-            let Some(ck) = nth_cell(dt, *cell) else { return Outcome::Err { class: "NoSuchCell".into() } };
+            let Some(ck) = nth_cell(dt, *cell) else { return Outcome::Err { class: "NoSuchCell".into(), dbg: String::new() } };
             flip_outcome(dt.flip_k3(RidgeHandle::new(ck, *a, *b)))
         }
         Op::K2Inv { v0, v1 } => {
-            let (Some(a), Some(b)) = (nth_vertex(dt, *v0), nth_vertex(dt, *v1)) else { return Outcome::Err { class: "NoSuchVertex".into() } };
+            let (Some(a), Some(b)) = (nth_vertex(dt, *v0), nth_vertex(dt, *v1)) else { return Outcome::Err { class: "NoSuchVertex".into(), dbg: String::new() } };
             flip_outcome(dt.flip_k2_inverse_from_edge(EdgeKey::new(a, b)))
         }
         Op::K3Inv { v0, v1, v2 } => {
-            let (Some(a), Some(b), Some(c)) = (nth_vertex(dt, *v0), nth_vertex(dt, *v1), nth_vertex(dt, *v2)) else { return Outcome::Err { class: "NoSuchVertex".into() } };
+            let (Some(a), Some(b), Some(c)) = (nth_vertex(dt, *v0), nth_vertex(dt, *v1), nth_vertex(dt, *v2)) else { return Outcome::Err { class: "NoSuchVertex".into(), dbg: String::new() } };
             flip_outcome(dt.flip_k3_inverse_from_triangle(TriangleHandle::new(a, b, c)))
         }
         Op::Repair => match dt.repair_delaunay_with_flips() {
             Ok(s) => Outcome::Ok { class: "Repaired".into(), key: None, detail: format!("flips={}", s.flips_performed) },
-            Err(e) => Outcome::Err { class: format!("Repair::{}", variant_name(&e)) },
+            Err(e) => Outcome::Err { class: format!("Repair::{}", variant_name(&e)), dbg: dbg_of(&e) },
         },
         Op::RepairAdvanced => match dt.repair_delaunay_with_flips_advanced(DelaunayRepairHeuristicConfig { shuffle_seed: Some(11), perturbation_seed: Some(13) }) {
             Ok(o) => Outcome::Ok { class: if o.used_heuristic() { "RepairedHeuristic".into() } else { "Repaired".into() }, key: None, detail: format!("flips={}", o.stats.flips_performed) },
-            Err(e) => Outcome::Err { class: format!("Repair::{}", variant_name(&e)) },
+            Err(e) => Outcome::Err { class: format!("Repair::{}", variant_name(&e)), dbg: dbg_of(&e) },
         },
         Op::SetVP(i) => {
             dt.set_validation_policy(vp_of(*i));
@@ -221,11 +225,11 @@ where
         Op::SerdeSwap => {
             let json = match serde_json::to_string(dt.tds()) {
                 Ok(j) => j,
-                Err(e) => return Outcome::Err { class: format!("Serialize::{e}") },
+                Err(e) => return Outcome::Err { class: format!("Serialize::{e}"), dbg: String::new() },
             };
             let tds: Tds<f64, i32, (), D> = match serde_json::from_str(&json) {
                 Ok(t) => t,
-                Err(e) => return Outcome::Err { class: format!("Deserialize::{}", e.to_string().chars().take(40).collect::<String>()) },
+                Err(e) => return Outcome::Err { class: format!("Deserialize::{}", e.to_string().chars().take(40).collect::<String>()), dbg: String::new() },
             };
             let (vp, tg, rp, cp) = (dt.validation_policy(), dt.topology_guarantee(), dt.delaunay_repair_policy(), dt.delaunay_check_policy());
             let mut n = DtI::<K, D>::from_tds_with_topology_guarantee(tds, K::default(), tg);
@@ -251,8 +255,8 @@ where
     if stats {
         match dt.insert_with_statistics(v) {
             Ok((InsertionOutcome::Inserted { vertex_key, .. }, st)) => Outcome::Ok { class: "Inserted".into(), key: Some(vertex_key), detail: format!("attempts={}", st.attempts) },
-            Ok((InsertionOutcome::Skipped { error }, _)) => Outcome::Skipped { class: variant_name(&error) },
-            Err(e) => Outcome::Err { class: variant_name(&e) },
+            Ok((InsertionOutcome::Skipped { error }, _)) => Outcome::Skipped { class: variant_name(&error), dbg: dbg_of(&error) },
+            Err(e) => Outcome::Err { class: variant_name(&e), dbg: dbg_of(&e) },
         }
     } else {
         ins_outcome(dt.insert(v))
